@@ -323,7 +323,9 @@ Definition stale_unlisted (d : disk) : Prop :=
 Definition Live (c : cfg) (nb : N) (w : wal) (d : disk) (defer : list sop) : Prop :=
   LInv c nb w (sh d) /\ stale_tail_ok c w d defer.
 
-(* the tail is sealed but no rotation is pending (a rotation or tail-truncation commit failed) *)
+(* the tail is sealed but no rotation is pending (a rotation or tail-truncation commit
+   failed): since a failed commit makes the WAL refuse writes this is no mode of its own
+   any more, only the shape of the clean state readers are then served from *)
 Definition Seal (c : cfg) (nb : N) (w : wal) (d : disk) : Prop :=
   exists tw, st_tail w = Some tw /\ 0 < ws_index_start tw /\ st_rotate w = None /\
              LInv c nb (set_rot w (Some (ws_index_start tw))) (sh d) /\ stale_unlisted d.
@@ -342,7 +344,6 @@ Definition Mode (c : cfg) (nb : N) (w : wal) (d : disk) (nom : spst) (defer : li
   (st_closed w = true /\ st_rotate w = None) \/
   (st_closed w = false /\
    ((Live c nb w d defer /\ sp_of (sh d) = nom) \/
-    (Seal c nb w d /\ sp_of (sh d) = nom) \/
     (st_failed w = true /\ st_rotate w = None /\ RV c nb w d nom))).
 
 (* deferred operations are well-formed StoreLogs calls *)
